@@ -77,13 +77,13 @@ impl Machine {
     /// mutated may get into an invalid state).
     pub fn validate(&self) -> Result<(), Error> {
         // sane limits
-        if self.max_padding_frac < 0.0 || self.max_padding_frac > 1.0 {
+        if !(0.0..=1.0).contains(&self.max_padding_frac) {
             return Err(Error::Machine(format!(
                 "max_padding_frac has to be [0.0, 1.0], got {}",
                 self.max_padding_frac
             )));
         }
-        if self.max_blocking_frac < 0.0 || self.max_blocking_frac > 1.0 {
+        if !(0.0..=1.0).contains(&self.max_blocking_frac) {
             return Err(Error::Machine(format!(
                 "max_blocking_frac has to be [0.0, 1.0], got {}",
                 self.max_blocking_frac
